@@ -1,6 +1,7 @@
 package rules
 
 import (
+	"go/token"
 	"strings"
 
 	"golang.org/x/tools/go/ssa"
@@ -280,6 +281,9 @@ func c02(c *Ctx) {
 						n++
 						ci, isCall := r.(ssa.CallInstruction)
 						good := isCall && cfgx.CalleeName(ci) == "(*"+xp+rp+".APIEstablisher).update"
+						if bo, isCmp := r.(*ssa.BinOp); isCmp && (bo.Op == token.EQL || bo.Op == token.NEQ) && (cfgx.IsNilConst(bo.X) || cfgx.IsNilConst(bo.Y)) {
+							good = true // a nil test reads nothing of the snapshot
+						}
 						c.R.Check(good, load.FuncName(f)+": cd.Current use #"+itoa(n), c.pos(r.Pos()), "the validated snapshot is only handed to e.update", "the validated snapshot (cd.Current) is used or modified between validation and the update: the optimistic-concurrency check no longer covers the ownership check")
 					}
 				}
